@@ -105,6 +105,11 @@ func runC01(r *report.Run) {
 	r.Set("traces_validated_against_impl", 2*total+tr)
 	r.Set("evaluations", 2*total+tr)
 	r.Set("distinct_nontrivial", nontriv)
+	for i, cs := range cpuSampled {
+		if i%8 == 0 {
+			r.Sample(cs)
+		}
+	}
 	r.Set("rule", "every case of the five sweeps (fetch, addressing, operation, flags, frame) for all 256 opcodes is one Step of each interpreter from an enumerated raw state, compared through the abstraction function with the reference WDC model (registers, flags, PC, write set); plus the program search (sequences); non-trivial = the reference step writes memory or changes a register/flag other than PC")
 	al := cpuAlphabets(o.thorough, o.seed)
 	r.Set("alphabets", map[string]interface{}{"locations": len(al.locs), "operand_bytes": al.bytes, "accumulator/data": al.acc, "index": al.idx, "S": al.sp, "D": al.dreg, "DBR": al.dbr, "pointer_low": al.ptrLo, "pointer_bank": al.ptrBk, "base_images": len(al.seeds), "stale_copies": 3})
